@@ -38,6 +38,20 @@ theorem denotation_well_formed (S : Schema) (hS : S.ok = true) (ty : Ty) (v : Va
 theorem codes_are_protocol_codes (S : Schema) (ty : Ty) (v : Val) : codesStrict (toWire S ty v) = true :=
   toWire_codesStrict S v ty
 
+/-- each field that must be present appears exactly once: the message's ids are a sublist of the field
+    table's ids (in table order: ascending id, C12.field_table) and pairwise distinct -/
+theorem fields_appear_once (S : Schema) (sd : SDesc) (fs : List Field) (xs : List Val)
+    (h : fs.Pairwise (fun a b => a.id ≠ b.id)) :
+    ((toWireFields S sd fs xs).map (·.1)).Sublist (fs.map (·.id)) ∧
+    ((toWireFields S sd fs xs).map (·.1)).Pairwise (· ≠ ·) :=
+  ⟨toWireFields_ids_sublist S sd fs xs, toWireFields_ids_distinct S sd fs xs h⟩
+
+/-- nil non-optional containers are written empty and a nil non-optional struct as an empty struct -/
+theorem nil_written_empty (S : Schema) (s : Bool) (e k v : Ty) (sid : Nat) :
+    toWire S (.list s e) (.lst true []) = (if s then .set e.wire [] else .list e.wire []) ∧
+    toWire S (.map k v) (.mp true []) = .map k.wire v.wire [] ∧
+    toWire S (.ptr (.strct sid)) .nilp = .strct [] := toWire_nil S s e k v sid
+
 /-- the reference parser inverts `ser`: equal bytes denote equal Thrift values, and an independent
     parser reads the output back to the same value -/
 theorem ser_denotes (v w : TVal) (hv : wf v = true) (hw : wf w = true) (ht : v.tag = w.tag)
